@@ -153,6 +153,8 @@ class ScipyOptimizeDriver(Driver):
         self._dvlist = None
         self._lincongrad_cache = None
         self._desvar_array_cache = None
+        self._last_x = None
+        self._grad_x = None
         self.fail = False
         self.iter_count = 0
         self._check_jac = False
@@ -239,6 +241,9 @@ class ScipyOptimizeDriver(Driver):
         self._total_jac = None
         self._total_jac_linear = None
         self._desvar_array_cache = None
+        self._last_x = None
+        self._grad_x = None
+        self._grad_cache = None
 
         self._check_for_missing_objective()
         self._check_for_invalid_desvar_values()
@@ -297,6 +302,9 @@ class ScipyOptimizeDriver(Driver):
                         p_high = None
 
                     bounds.append((p_low, p_high))
+
+        # the model has just been run at the initial design
+        self._last_x = x_init.copy()
 
         if use_bounds and (opt in _supports_new_style) and _use_new_style:
             # For 'trust-constr' it is better to use the new type bounds, because it seems to work
@@ -585,6 +593,7 @@ class ScipyOptimizeDriver(Driver):
 
             # Update the cached design variable vector
             dv_vec.set_data(x_new, driver_scaling=True)
+            self._last_x = np.array(x_new, dtype=float)
 
             # Design variables in dv_vec are now in optimizer scaled space and in driver-units.
             self._set_design_vars(driver_scaling=True)
@@ -607,6 +616,24 @@ class ScipyOptimizeDriver(Driver):
             return 0
 
         return f_new
+
+    def _sync_model(self, x_new):
+        """
+        Run the model at x_new unless that is the design it was evaluated at last.
+
+        scipy does not promise to evaluate the objective before the constraints or the
+        derivatives at a new design point.
+
+        Parameters
+        ----------
+        x_new : ndarray
+            Array containing input values at new design point.
+        """
+        x_new = np.asarray(x_new, dtype=float)
+        if self._last_x is not None and x_new.shape != self._last_x.shape:
+            return  # e.g. COBYLA drops variables fixed by equal bounds
+        if self._last_x is None or not np.array_equal(x_new, self._last_x):
+            self._objfunc(x_new)
 
     def _con_val_func(self, x_new, name, dbl, idx):
         """
@@ -631,9 +658,9 @@ class ScipyOptimizeDriver(Driver):
         float
             Value of the constraint function.
         """
-        if self.options['optimizer'] in ['differential_evolution', 'COBYQA']:
-            # the DE opt will not have called this, so we do it here to update DV/resp values
-            self._objfunc(x_new)
+        self._sync_model(x_new)
+        if self._exc_info is not None:
+            self._reraise()
 
         return self._con_cache[name][idx]
 
@@ -660,6 +687,7 @@ class ScipyOptimizeDriver(Driver):
         float
             Value of the constraint function.
         """
+        self._sync_model(x_new)
         if self._exc_info is not None:
             self._reraise()
 
@@ -702,10 +730,13 @@ class ScipyOptimizeDriver(Driver):
         prob = self._problem()
         model = prob.model
 
+        self._sync_model(x_new)
+
         try:
             grad = self._compute_totals(of=self._obj_and_nlcons, wrt=self._dvlist,
                                         return_format=self._total_jac_format)
             self._grad_cache = grad
+            self._grad_x = None if self._last_x is None else self._last_x.copy()
 
             # First time through, check for zero row/col.
             if self._check_jac and self._total_jac is not None:
@@ -756,9 +787,12 @@ class ScipyOptimizeDriver(Driver):
         if meta['linear']:
             grad = self._lincongrad_cache
         else:
-            if self._grad_cache is None:
-                # _gradfunc has not been called, meaning gradients are not
-                # used for the objective but are needed for the constraints
+            x_arr = np.asarray(x_new, dtype=float)
+            if self._grad_cache is None or (self._grad_x is not None and
+                                            x_arr.shape == self._grad_x.shape and
+                                            not np.array_equal(x_arr, self._grad_x)):
+                # the cached gradients belong to another design point (or _gradfunc has not
+                # been called because gradients are not used for the objective)
                 self._gradfunc(x_new)
             grad = self._grad_cache
 
